@@ -7,6 +7,7 @@ import (
 	"go/constant"
 	"os"
 	"path/filepath"
+	"regexp"
 	"sort"
 	"strings"
 	"sync"
@@ -74,8 +75,14 @@ func main() {
 	samples := flag.Int("samples", 3, "sample models per harness")
 	smtlog := flag.String("smtlog", "", "directory for SMT transcripts")
 	shard := flag.String("l2shard", "", "r/M: decide only the L2 configurations with index%M == r")
+	l2par := flag.Int("l2par", 8, "L2 solver runs in flight per harness")
+	l2labels := flag.String("l2labels", "", "regular expression: only these assertion / reach labels are queried")
 	flag.Parse()
 
+	l2Parallel = *l2par
+	if *l2labels != "" {
+		labelFilter = regexp.MustCompile(*l2labels)
+	}
 	if *shard != "" {
 		fmt.Sscanf(*shard, "%d/%d", &shardR, &shardM)
 	}
